@@ -21,6 +21,13 @@ A spec is any object with
 
 Specs are created inside worker processes from (module, factory, args), so
 nothing unpicklable crosses a process boundary.
+
+The reference ("brand-new instance") observations are NOT taken in the
+processes that run the histories: `baseline()` computes each of them in its own
+pristine child process (mc/pristine.py) before any other pycparser code has
+run, and the table is shipped to the workers with their tasks.  Otherwise
+module-level state (a cache keyed by directive text, literal spelling, ...)
+would be in the reference as well and could never be seen.
 """
 from __future__ import annotations
 
@@ -112,12 +119,43 @@ def get_spec(ref):
 
 
 def expected(spec, i):
-    """Observation of ops[i] on a brand-new instance (the reference)."""
-    e = spec._expected.get(i)
-    if e is None:
-        e = spec.apply(spec.fresh(), i)[0]
-        spec._expected[i] = e
-    return e
+    """Observation of ops[i] on a brand-new instance IN A PRISTINE PROCESS
+    (the reference).  The table is computed by `baseline()` before anything
+    else has run and shipped to the workers with their tasks; it is never
+    computed lazily in a process that has already executed other operations
+    (a module-level cache would pollute reference and run alike)."""
+    try:
+        return spec._expected[i]
+    except KeyError:
+        raise RuntimeError(f"{spec.name}: no pristine baseline for operation {i}") from None
+
+
+def install_baseline(ref, table):
+    spec = get_spec(ref)
+    spec._expected = dict(table)
+    return spec
+
+
+def _baseline_work(task):
+    ref, i = task
+    spec = get_spec(ref)
+    return spec.apply(spec.fresh(), i)[0]
+
+
+def baseline(ref, nops, only=None):
+    """{op index: observation} with every entry computed in its own pristine
+    child process (twice, in two children), plus the list of operations whose
+    two pristine observations differ: [(i, obs1, obs2)]."""
+    from . import pristine
+
+    idx = list(range(nops)) if only is None else sorted(set(only))
+    res = pristine.pristine_map(_baseline_work, [(ref, i) for i in idx])
+    table, unstable = {}, []
+    for i, (a, b) in zip(idx, res):
+        table[i] = a
+        if a != b:
+            unstable.append((i, a, b))
+    return table, unstable
 
 
 def build(spec, hist, check=True):
@@ -155,8 +193,8 @@ def build(spec, hist, check=True):
 
 def _explore_prefix(task):
     """All histories that start with `prefix` (inclusive) up to `depth`."""
-    ref, prefix, depth = task
-    spec = get_spec(ref)
+    ref, prefix, depth, table = task
+    spec = get_spec(ref) if table is None else install_baseline(ref, table)
     nops = len(spec.ops)
     prefix = tuple(prefix)
     histories = applied = same_twice = 0
@@ -196,20 +234,24 @@ def _explore_prefix(task):
     }
 
 
-def explore(ref, depth, plen=2):
-    """All histories of length 1..depth over spec.ops, smallest first.
-    Work is partitioned by the first `plen` operations (enumeration index, not
-    time) and merged in index order.  Returns a summary dict."""
-    spec = get_spec(ref)
-    nops = len(spec.ops)
+def explore(ref, depth, table, plen=2, name=None):
+    """All histories of length 1..depth over the spec's operations, smallest
+    first.  `table` is the pristine baseline from `baseline()` (it also gives
+    the number of operations); it travels with every task.  The spec itself
+    is only ever built inside worker processes.  Work is partitioned by the
+    first `plen` operations (enumeration index, not time) and merged in index
+    order.  Returns a summary dict."""
+    nops = len(table)
+    if sorted(table) != list(range(nops)):
+        raise RuntimeError(f"{ref}: baseline covers {sorted(table)}")
     plen = min(plen, depth)
     tasks = []
     # histories shorter than plen: one task per length-1.. prefix, no extension
     for l in range(1, plen):
         for p in itertools.product(range(nops), repeat=l):
-            tasks.append((ref, p, l))
+            tasks.append((ref, p, l, table))
     for p in itertools.product(range(nops), repeat=plen):
-        tasks.append((ref, p, depth))
+        tasks.append((ref, p, depth, table))
     res = core.pmap(_explore_prefix, tasks)
     out = {"histories": 0, "applied": 0, "same_twice": 0, "states": set(),
            "last_state": {}, "fails": [], "outcome_kinds": {}}
@@ -225,8 +267,56 @@ def explore(ref, depth, plen=2):
             out["outcome_kinds"][k] = out["outcome_kinds"].get(k, 0) + v
     # smallest-first so that the first recorded case per signature is minimal
     out["fails"].sort(key=lambda f: (len(f[1]["history"]), f[1]["history"]))
-    out["expected_distinct"] = len({O.digest(expected(spec, i)) for i in range(nops)})
+    out["fails"] = confirm(ref, table, out["fails"])
+    out["expected_distinct"] = len({O.digest(table[i]) for i in range(nops)})
     out["nops"] = nops
+    return out
+
+
+def _confirm_work(task):
+    """In a pristine process: first the prelude (each operation on its own
+    fresh instance - other instances used earlier in the process), then the
+    history on one fresh instance.  Returns the violations of its last event."""
+    ref, table, prelude, h = task
+    spec = install_baseline(ref, table)
+    for k in prelude:
+        spec.apply(spec.fresh(), k)
+    obj, obs, keep, viol = build(spec, tuple(h))
+    return [(sig, detail) for n, sig, detail in viol if n == len(h) - 1]
+
+
+def confirm(ref, table, fails):
+    """Worker processes run many histories, so a failure seen there may owe
+    something to what the process did earlier (module-level state).  For the
+    smallest case of every signature, look for a self-contained reproduction
+    in a pristine process: the history alone, else the history after one other
+    operation executed on a separate fresh instance.  The case records the
+    prelude it needs (`prelude`), or `self_contained: false` if none of these
+    reproduces it (it is reported all the same)."""
+    from . import pristine
+
+    nops = len(table)
+    seen = set()
+    out = []
+    for sig, case, detail in fails:
+        if sig in seen:
+            out.append((sig, case, detail))
+            continue
+        seen.add(sig)
+        h = case["history"]
+        cands = [[]] + [[k] for k in range(nops)]
+        res = pristine.pristine_map(_confirm_work, [(ref, table, pre, h) for pre in cands], repeat=1)
+        case = dict(case)
+        case["self_contained"] = False
+        for pre, (viol,) in zip(cands, res):
+            if viol:
+                case["prelude"] = pre
+                case["self_contained"] = True
+                if pre:
+                    detail = (f"{detail} [needs process state: reproduced in a pristine process after "
+                              f"operation {pre} ran on ANOTHER fresh instance; there: {viol[0][0]}]")
+                break
+        out.append((sig, case, detail))
     return out
 
 
@@ -267,8 +357,14 @@ def selfcheck():
     """The engine must (a) stay silent on a history-independent toy, (b) find
     the planted dependence in the leaky toy with a minimal history of length
     2, (c) give identical observations when one history is replayed twice."""
-    clean = _explore_prefix((("mc.hist", "toy_spec", (0,)), (), 3))
-    leaky = _explore_prefix((("mc.hist", "toy_spec", (1,)), (), 3))
+    tabs = {}
+    for leaky in (0, 1):
+        r = ("mc.hist", "toy_spec", (leaky,))
+        sp = get_spec(r)
+        # the toy runs no pycparser code: its baseline may be taken in-process
+        tabs[leaky] = {i: sp.apply(sp.fresh(), i)[0] for i in range(len(sp.ops))}
+    clean = _explore_prefix((("mc.hist", "toy_spec", (0,)), (), 3, tabs[0]))
+    leaky = _explore_prefix((("mc.hist", "toy_spec", (1,)), (), 3, tabs[1]))
     ok = clean["histories"] == 3 + 9 + 27 and not clean["fails"]
     ok = ok and leaky["fails"] and min(len(f[1]["history"]) for f in leaky["fails"]) == 2
     s = get_spec(("mc.hist", "toy_spec", (1,)))
